@@ -8,6 +8,7 @@ CONF_CFG = """CONSTANTS MaxRetx = %d
   MaxRounds = 99
   Mode = "any"
   Buffered = TRUE
+  WithWriteFailures = TRUE
 INIT TInit
 NEXT TNext
 INVARIANT NotDone
@@ -46,6 +47,8 @@ def run(ctx):
     for mode in ("all", "none", "fail", "dup"):
         r = vlib.tlc_check(ctx.scratch, "WatchdogImpl", "WatchdogImpl_%s_TRUE.cfg" % mode, workers=2)
         states += r["distinct"]; trans += r["generated"]
+    rw = vlib.tlc_check(ctx.scratch, "WatchdogImpl", "WatchdogImpl_all_wfail.cfg", workers=2)
+    states += rw["distinct"]; trans += rw["generated"]
     rd = vlib.tlc_check(ctx.scratch, "WatchdogImpl", "WatchdogImpl_all_FALSE.cfg", workers=1, expect_violation="SparesResponsive")
     states += rd["distinct"]; trans += rd["generated"]
     ctx.log("R1: WatchdogImpl (one-slot ack channel) satisfies WatchdogObs for peers answering all / none / with a failure code / with duplicated answers; the unbuffered-channel configuration loses an acknowledgement and violates SparesResponsive as it must")
